@@ -110,14 +110,14 @@ CLAIMS = {
         "ref": "DESIGN.md §4 C10",
     },
     "C12": {
-        "technique": "Lean 4 theorems: anchored case-folding regex over glob/LIKE atoms = textbook matcher (induction on pattern and subject; Kleene-star/suffix lemma), complements of the negative operators, cache transparency under an invariant + in-process validation against the real regex crate + CLI correspondence + Python reference matcher",
-        "text": ("Theorems for every pattern and subject: is_match of the anchored, case-folding, dot-all regex built from the pattern's "
-                 "atoms equals the textbook whole-string matcher (*/% any run incl. newlines, ?/_ exactly one, every other character itself); "
-                 "!=, notlike, !=~, !== are the exact complements of =, like, =~, === whatever the cache holds; ===/!== compare literal text; "
-                 "the shared regex cache is transparent under the invariant CacheOK (keys carry the operator family: D34 fixed) and the "
-                 "invariant is preserved. Not proved: that the model's regex parser maps the escaped pattern text to that atom chain (tested "
-                 "on every generated pattern, labelled a test) and that the regex crate behaves like the model's fragment (validated in-process "
-                 "against the real crate at volume). User regexes outside the fragment are reported `unsupported` and skipped."),
+        "technique": "Lean 4 theorems: the anchored case-folding regex of a pattern's atoms is the textbook whole-string matcher (induction on pattern and subject), the model's regex parser reads the pattern text of convert_glob_to_pattern / convert_like_to_pattern back as exactly that atom chain for every pattern (induction with a fuel bound), negative operators are complements, regex-cache transparency under an invariant + in-process comparison with the real regex crate + Python reference matcher",
+        "text": ("Theorems for every pattern and subject: the pattern text produced for a glob (resp. LIKE) parses, in the model's regex "
+                 "parser, to the anchored atom chain in which `*`/`%` is any run of characters, `?`/`_` exactly one and every other character "
+                 "— regex metacharacters included — itself (glob_pattern_parses, like_pattern_parses), and matching that chain is the "
+                 "textbook whole-string, case-folding match (glob_end_to_end, like_end_to_end); `!=`, `notlike`, `!=~`, `!==` are the exact "
+                 "complements of `=`, `like`, `=~`, `===` per atom; `===`/`!==` compare the literal text; a comparison gives the same verdict "
+                 "with any cache satisfying the invariant as with an empty one. External: the regex crate itself (validated in-process on "
+                 "every run, 4 000–60 000 pattern/subject pairs, and through the CLI); user regexes (`=~`) on the modelled fragment only."),
         "ref": "DESIGN.md §4 C12",
     },
     "C13": {
